@@ -533,6 +533,22 @@ fn lock<T>(m: &Mutex<T>) -> std::sync::MutexGuard<'_, T> {
     m.lock().unwrap_or_else(|e| e.into_inner())
 }
 
+/// environment of this child process: every drop of a handle / guard happens by the unwinding of
+/// a caught panic of its owner
+static UNWINDING: std::sync::atomic::AtomicBool = std::sync::atomic::AtomicBool::new(false);
+struct ExpectedUnwind;
+fn drop_it<T>(x: T) {
+    if UNWINDING.load(Ordering::Relaxed) {
+        let r = catch_unwind(AssertUnwindSafe(move || {
+            let _owned = x;
+            std::panic::panic_any(ExpectedUnwind);
+        }));
+        assert!(r.is_err());
+    } else {
+        drop(x);
+    }
+}
+
 fn exec_local(req: &Req, local: &mut Local, sh: &Shared) -> Outcome {
     let eid = req.eid;
     let inst = req.inst;
@@ -544,7 +560,7 @@ fn exec_local(req: &Req, local: &mut Local, sh: &Shared) -> Outcome {
             }
             What::Op(Op::DropAttach) => {
                 let h = lock(&sh.handles).pop();
-                drop(h);
+                drop_it(h);
             }
             What::Op(Op::Forget) => {
                 let h = lock(&sh.handles).pop();
@@ -556,14 +572,14 @@ fn exec_local(req: &Req, local: &mut Local, sh: &Shared) -> Outcome {
                 let g = VerifGlobal::set_test_sink(BoxEntrySink::new(RecSink { inst }));
                 local.tl_guards.push(g);
             }
-            What::Op(Op::DropTl(_)) => drop(local.tl_guards.pop()),
+            What::Op(Op::DropTl(_)) => drop_it(local.tl_guards.pop()),
             What::Op(Op::InstallRt(r)) => {
                 let g = VerifGlobal::set_test_sink_for_tokio_runtime(sh.rts[r as usize].handle(), BoxEntrySink::new(RecSink { inst }));
                 lock(&sh.rt_guards[r as usize]).push(g);
             }
             What::Op(Op::DropRt(r)) => {
                 let g = lock(&sh.rt_guards[r as usize]).pop();
-                drop(g);
+                drop_it(g);
             }
             What::Op(Op::Emit { kind, .. }) => {
                 let e = VEntry { id: eid, tag: tag_of(eid) };
@@ -1167,8 +1183,9 @@ impl Child {
 fn child_main(a: &[String]) -> ! {
     let num = |i: usize| -> usize { a.get(i).and_then(|s| s.parse().ok()).unwrap_or_else(|| bad_child_args(a)) };
     match a.first().map(|s| s.as_str()) {
-        Some("main") => {
+        Some(kind @ ("main" | "main-unwinding")) => {
             // main DEPTH PART OF SYM MAXOBS
+            UNWINDING.store(kind == "main-unwinding", Ordering::Relaxed);
             let cfg = EnumCfg { depth: num(1), sym: num(4) == 1, max_obs: num(5), allow_forget: false };
             let part = (num(2), num(3));
             let mut c = Child::new("main");
@@ -1442,6 +1459,19 @@ fn parent_main() {
     }
     spaces_json.push(json!({"space": "attach-X,forget,then-every-suffix (one process per X and part; attached-forever is the base state)", "depth": forget_suffix_depth,
         "symmetry_reduced": forget_suffix_sym, "histories_in_space": expect_fs, "histories_executed": got_fs}));
+
+    // 2b. every drop of a handle / guard by the unwinding of a caught panic of its owner
+    let unw_depth: usize = tier.pick(4, 5);
+    let unw_cfg = EnumCfg { depth: unw_depth, sym: false, max_obs: unlimited, allow_forget: false };
+    let expect_unw = count_histories(&Model::default(), &Seen::default(), unw_cfg.depth, &unw_cfg, &mut HashMap::new());
+    let unw_jobs: Vec<Vec<String>> = (0..procs).map(|p| vec![s("main-unwinding"), s(unw_depth), s(p), s(procs), s(0), s(unlimited)]).collect();
+    let outs_unw = run_jobs(&unw_jobs, procs);
+    let got_unw = merge(&outs_unw, &mut tot, &mut rep);
+    if got_unw != expect_unw {
+        exhaustive = false;
+    }
+    spaces_json.push(json!({"space": "no-forget:all-operations, every handle/guard drop by the unwinding of a caught panic", "depth": unw_depth,
+        "symmetry_reduced": false, "histories_in_space": expect_unw, "histories_executed": got_unw}));
 
     // 3. forget anywhere: one fresh process per history
     let fa_cfg = EnumCfg { depth: forget_anywhere_len, sym: false, max_obs: unlimited, allow_forget: true };
